@@ -165,6 +165,16 @@ CHECKS = [
            'Topology.serialize/load (string, file, new id) and import into the per-graph store. (c) The four shipped advertisement files.',
       note="'\\r' and C0 controls and mixed Python types under one attribute name are outside the stated domain. Values are one-factor and "
            'pairwise, not all combinations.'),
+ dict(property_id='C13', engine='E2-enum', level='exploration',
+      technique='model checking: exhaustive enumeration of all delegation assignment vectors over generated substrate models, 7-clause oracle on raw snapshots',
+      text='A generated site model (worker with a two-port NIC, stitch switch with service and ports, patch links; second variant with '
+           'a second worker, a facility and an inter-switch link) is annotated with every vector of per-element delegation choices over '
+           '4 (8^4 = 4096 vectors) resp. 6 (3^6 quick, 6^6 thorough) delegable elements - none, label-only, capacity-only, both, a '
+           'second id, mixed ids, two ids on one element, pool definition - and partitioned with generate_adms() on the in-memory '
+           'backend. Every returned model is judged from raw store snapshots: delegated nodes present with exactly their own entries, no '
+           'foreign entry anywhere, sub-model (ids, other properties, edges between kept nodes, nothing new), every kept interface '
+           'keeps link, peer, owning service and its owner, all stitch nodes present, aggregate untouched, re-keying changes only the key.',
+      note='Two fixed model shapes; extra kept nodes are allowed by the statement. Only the in-memory backend (as the property states).'),
 ]
 _claimed = {c['property_id'] for c in CHECKS}
 NOT_APPLICABLE = [dict(property_id=p, reason='check not built yet in this revision (work in progress; model checking applies, see DESIGN.md)')
